@@ -3,6 +3,9 @@ from . import quant
 
 
 def run(ctx, model):
+    from . import signatures as _sig
+    _n_sig = _sig.check(ctx, model, "R-SIGNATURE", lambda k: k.startswith('pregex.core.quantifiers:') or k.split('.')[-1] in ('optional', 'indefinite', 'one_or_more', 'exactly', 'at_least', 'at_most', 'at_least_at_most', '__mul__', '__rmul__'))
+    ctx.floor("R-SIGNATURE", _n_sig, 1, "public entry points")
     ctx.explanation = (
         "R-QUANT: each of the 16 quantifier entry points (7 Pregex methods, 7 classes of quantifiers.py, "
         "__mul__, __rmul__) is walked by an abstract interpreter over the syntax trees of /repo (delegation and "
